@@ -1,3 +1,4 @@
+import GoRes.Model.Discipline
 import GoRes.Model.Pool
 import GoRes.Lemmas.Pool
 /-! # C01 — at most one callback of a worker group executes at any instant
@@ -35,6 +36,27 @@ theorem one_live_item (acts : List Act) (s : St) (h : run init acts = some s) (g
   rw [cnt_eq, hq] at h1
   simp only [Option.getD_some] at h1
   omega
+
+/-! ## the premise of the model, re-proved against the source on every run
+
+The model's actions are critical sections of the service mutex: that is only a faithful picture of
+the Go code if the queue state (`rwork`, `workqueue`, `workbuf`, `work.queue`) is never touched
+without the mutex.  `Generated/Access.lean` is rewritten from /repo's source by the extractor. -/
+
+open GoRes.Discipline in
+/-- **every access to the queue state is made with the service mutex held**, and none of them is an
+atomic operation mixed in -/
+theorem queue_state_guarded :
+    ∀ a ∈ Generated.accesses, poolFields.contains (Acc.strct a, Acc.field a) = true →
+      Acc.lock a = "L" ∧ (Acc.kind a = "r" ∨ Acc.kind a = "w") := by
+  decide +kernel
+
+/-- `processQueue`, which the model treats as part of the worker's critical section, is entered
+with the mutex held at every call site -/
+theorem process_queue_entered_locked :
+    Generated.entryLocked.contains "work.processQueue" = true ∧
+    ∀ c ∈ Generated.calls, c.1 = "work.processQueue" → c.2.2 = "L" := by
+  decide +kernel
 
 /-! ## non-vacuity: two workers run different groups while a third item is queued -/
 example : ∃ s, run init [.serve 2, .subCheck 1 7 100 true, .subLock 1, .subSignal 1, .wStart 0,
